@@ -63,6 +63,9 @@ def rule_i_wrap(ctx):
                         none_lit = any(l.i < len(b.stmts(l.bb)) and b.stmts(l.bb)[l.i]["rv"].get("k") == "aggregate" and b.stmts(l.bb)[l.i]["rv"].get("variant") == "None" for l in s_)
                         if not from_inner and not none_lit:
                             why.append("the upper bound of the hint does not come from the iterator underneath (nor is it None)")
+                        lo_ = d[4]["rv"]["ops"][0]
+                        if b.op_const(lo_) != 0:
+                            why.append("the lower bound of the hint is not the constant 0 (every remaining element may be filtered out)")
                 R.inst(adt=adt, method="size_hint", fn=b.path, kind="filtering", verdict="ok" if not why else "VIOLATION")
                 if why:
                     R.viol("%s:size_hint:upper" % adt, b.where(Loc(0, 0)), "%s::size_hint: %s" % (adt, "; ".join(sorted(set(why)))))
